@@ -93,6 +93,20 @@ def check(repo, tier):
                 if par != {0}:
                     run.add(F(entry, 'D2', 'conjugation of the eigenvectors', f'{scen}: the eigenvector matrix of the reduced matrix enters the mode coefficients '
                               + ('complex-conjugated' if par == {1} else 'both conjugated and unconjugated') + ': position k of the modes then holds the mode of the conjugate of eigenvalue k'))
+            # D1 the reduced matrix is a general matrix: its eigenpairs come from a general eigensolver (a Hermitian one reads one triangle only, i.e. silently
+            # symmetrises; a tolerance comparison with the transpose does not make the matrix symmetric)
+            herm = [e for e in sc.events('eig') if e.get('solver') == 'eigh' and e.get('fn') is not None and e['fn'].mod == MOD]
+            run.oblige('D1', (entry, scen, tuple(ch), 'general eigensolver'), not herm)
+            if herm:
+                where, cons, f_, ln = l2rules.ev_where(repo, herm[0], {MOD})
+                run.add(Finding('C17', 'D1', where, cons, f'{scen}' + (f' [on the path with test outcomes {ch}]' if ch else '') + ': the eigenpairs of the reduced matrix are computed by a Hermitian '
+                                'eigensolver: the reduced matrix of DMD is not symmetric in general, the solver uses one triangle only', f_, ln))
+            # D1 y enters as it is: the rank cut belongs to the pseudoinverse of x; a truncated y drops components of the data the DMD operator maps to
+            ycut = l2rules.cut_decompositions_of(sc, sc.old[1])
+            run.oblige('D1', (entry, scen, tuple(ch), 'y not truncated'), not ycut)
+            if ycut:
+                run.add(F(entry, 'D1', 'y truncated', f'{scen}: {len(ycut)} decomposition(s) of (arrays computed from) the cores of y are cut by a threshold test: the reduced matrix and the modes are built '
+                          'from a truncated y'))
             # D2 paired reorder
             if ok and isinstance(ev, Arr) and ev.ndim == 1:
                 lw = ev.legs[0]
